@@ -102,11 +102,51 @@ func (u *Unit) havocAll(st *State, why string) {
 		keep = append(keep, kept{pv, elem, u.loadAt(view, pv, elem)})
 	}
 	sort.Slice(keep, func(i, j int) bool { return describeValue(keep[i].ptr) < describeValue(keep[j].ptr) })
+	// maps created in this function (make / fresh call results) that are only looked up, updated, ranged or
+	// measured here - never stored, passed or returned - cannot be touched by a callee either
+	type keptMap struct {
+		ref  Term
+		mt   types.Type
+		dom  Term
+		vals []Term
+	}
+	var keepMaps []keptMap
+	for v, pv := range st.Env {
+		mt, isMap := v.Type().Underlying().(*types.Map)
+		if !isMap || !u.w.privateMap(v) {
+			continue
+		}
+		sc, ok := pv.(Sc)
+		if !ok {
+			continue
+		}
+		ks := scalarSort(mt.Key())
+		if ks == "" {
+			continue
+		}
+		km := keptMap{ref: sc.T, mt: v.Type()}
+		km.dom = Select(u.viewGet(view, mapDomFam(v.Type()), ArrSort(SInt, ArrSort(ks, SBool))), sc.T)
+		for _, c := range comps(mt.Elem()) {
+			km.vals = append(km.vals, Select(u.viewGet(view, mapValFam(v.Type())+c[0], ArrSort(SInt, ArrSort(ks, c[1]))), sc.T))
+		}
+		keepMaps = append(keepMaps, km)
+	}
+	sort.Slice(keepMaps, func(i, j int) bool { return keepMaps[i].ref.S < keepMaps[j].ref.S })
 	st.Heap = map[string]Term{}
 	st.Hid = u.newHid(hidRec{kind: 1})
 	defer func() {
 		for _, k := range keep {
 			u.storeAt(st, k.ptr, k.elem, k.val)
+		}
+		for _, km := range keepMaps {
+			mt := km.mt.Underlying().(*types.Map)
+			ks := scalarSort(mt.Key())
+			df := mapDomFam(km.mt)
+			u.heapSet(st, df, Store(u.heapGet(st, df, ArrSort(SInt, ArrSort(ks, SBool))), km.ref, km.dom))
+			for i, c := range comps(mt.Elem()) {
+				vf := mapValFam(km.mt) + c[0]
+				u.heapSet(st, vf, Store(u.heapGet(st, vf, ArrSort(SInt, ArrSort(ks, c[1]))), km.ref, km.vals[i]))
+			}
 		}
 	}()
 	u.havocAlls = append(u.havocAlls, why)
